@@ -5,10 +5,11 @@ CLAIMS = {
  "C01": {
   "design_ref": "DESIGN.md 4 C01",
   "text": "Bounded model checking of the whole real qmail-queue.c main() (+triggerpull, open_excl, fmtqfn) against a file-system model: for every envelope "
-          "of up to E bytes (E=5 quick, 7 thorough; any bytes, EOF and read error anywhere), every body length up to B, ANY number of failing system calls "
+          "of up to E bytes (E=5,7 quick, up to 9 thorough; any bytes, EOF and read error anywhere), every body length up to B, ANY number of failing system calls "
           "and EVERY crash instant (invariant evaluated at the entry of every system call on fsynced data only): todo/N appears only when mess/N and intd/N "
           "are complete, flushed and fsynced; exit 0 iff todo/N exists; documented exit codes; alarm(DEATH<OSSIFIED) before any file; content harness: stored "
-          "bytes equal Received line + body and the envelope as supplied; address boundary 1001..1004 bytes executed with the real constant.",
+          "bytes equal Received line + body and the envelope as supplied; address boundary 1001..1004 bytes executed with the real constant; SIGALRM "
+          "before any one system call; the substdio put/get/copy lemmas the ideal streams rest on are decided as part of this check.",
   "note": "user-level buffering replaced by an ideal buffered stream (pending counter, early write-out at any put) whose contract is proved on the real "
           "substdio in C20; directory operations synchronous; pid/uid/time/inode concrete; boundary runs use one concrete filler byte; bounds E,B.",
  },
@@ -19,7 +20,8 @@ CLAIMS = {
           "leaves only S1/S2 leftovers (C01 harness); daemon preprocessing removes/re-creates/fsyncs info, local, remote BEFORE asking for todo/N removal; "
           "messdone removes info only after local, remote, todo were seen ENOENT and asks foop/N only afterwards; job_close unlinks a channel file only at EOF "
           "with nothing left; cleanup collects only mess files older than OSSIFIED with info and todo ENOENT; the cleaner unlinks exactly intd/N+mess/N or "
-          "intd/N+todo/N; a second qmail-send exits 111 at lock/sendmutex before touching anything.",
+          "intd/N+todo/N; a second qmail-send exits 111 at lock/sendmutex before touching anything and the running one never closes the mutex descriptor; "
+          "injectbounce removes bounce/N only after the bounce message was accepted by the queue.",
   "note": "claim is per transition (rely/guarantee style); that the invariant holds initially, that no fourth program writes the queue, kernel inode "
           "uniqueness and link() atomicity are assumed; interleavings are covered only through the per-step obligations; bounds as in C01/C03/C18.",
  },
@@ -47,17 +49,18 @@ CLAIMS = {
           "and F..NUL (T..NUL)* NUL; every wait status 0..65535 mapped to its D/Z class; after a flagged failure the envelope is never completed), received.c "
           "(only safe characters from the five peer-controlled strings), smtp_data (250 iff queued; hops >= 100 -> 554, size -> 552, D -> 554, Z -> 451), blast's hop "
           "counter vs the stored message, and the WHOLE main() of qmail-qmqpd and qmail-qmtpd on every input of up to 10 bytes (12/13 thorough) plus templates "
-          "with symbolic framing bytes around concrete fillers (addresses of 999/1000 bytes, recipient framing, sender, body) against a reference netstring parser.",
+          "with symbolic framing bytes around concrete fillers (addresses of 999/1000 bytes, recipient framing, sender, body) against a reference netstring parser; "
+          "a second package on the same QMTP connection after a warm-up package that dirtied every static buffer.",
   "note": "fork/pipe/exec/wait stubbed (the queue program is represented by its C01 contract); hop counts 98..101 are not executed (counter proved equal to the "
           "reference count for counts 0..1, smtp_data proved for every symbolic count); exit-82 custom text assumed to start with D or Z as qmail-queue(8) documents; "
-          "several packages per QMTP connection and write errors towards the client outside.",
+          "more than two packages per QMTP connection and write errors towards the client outside.",
  },
  "C08": {
   "design_ref": "DESIGN.md 4 C08",
   "text": "Bounded model checking of the real SMTP handlers (helo/ehlo/rset/mail/rcpt/data) with addrparse, bmfcheck, addrallowed for every sequence of 3 commands "
           "(4 thorough) with arguments up to 5 bytes, RELAYCLIENT unset or set, rcpthosts absent or 2 entries, one badmailfrom entry, against a ghost transaction kept "
           "from the replies: submission only after MAIL + accepted RCPT + DATA with exactly that envelope, resets as stated, RCPT 250 iff policy; addrparse vs the "
-          "documented forms (<= 7 bytes + localiphost template); rcpthosts() vs a reference suffix matcher incl. the cdb list; commands() line handling; constmap lemma.",
+          "documented forms (<= 7 bytes + localiphost template; the 900-byte limit as a parametric copy with the constant scaled to 13); rcpthosts() vs a reference suffix matcher incl. the cdb list; commands() line handling; constmap lemma.",
   "note": "rcpthosts/constmap cut to reference functions inside the sequence harness, their equivalence to the real code proved by the lemma obligations at small "
           "sizes; ipme_is stubbed; morercpthosts.cdb file format is C11's cdb reader.",
  },
@@ -66,23 +69,24 @@ CLAIMS = {
   "text": "Bounded model checking of qmail-send.c rewrite() against a model of qmail-send(8)/addresses(5) for every recipient of up to 6 bytes (9 thorough) with "
           "symbolic locals (<=2x3), virtualdomains (<=2 entries, keys <=4, tags <=2), percenthack, envnoathost; senderadd() VERP expansion; regetcontrols() over "
           "two HUPs; todo_do() writes each recipient once, in order, to the channel rewrite() chose; lemma: real constmap_init+constmap == case-insensitive linear search.",
-  "note": "constmap() cut under the lemma (proved for up to 3 entries x 3 bytes); control-file parsing and getcontrols() not reached; recorded judgements: '@' inside a "
-          "percent-hack fqdn not compared, envnoathost without '@'.",
+  "note": "constmap() cut under the lemma (proved for up to 3 entries x 3 bytes); control-file parsing and getcontrols() not reached; recorded judgements: an address whose "
+          "percent-hack rewrite again ends in a percent-hack domain is not compared (documents silent), envnoathost without '@'.",
  },
  "C11": {
   "design_ref": "DESIGN.md 4 C11",
   "text": "Bounded model checking of cdb_hash vs cdbmake hash (keys <= 6 bytes), pack/unpack for all 2^32 values, cdb_seek over an abstract file built from the cdb "
-          "format specification (0..2 records, duplicates, same bucket) and over arbitrary corrupt/truncated images, qmail-newu main() on 1-2 assign lines, "
+          "format specification (0..2 records, duplicates, same bucket) and over arbitrary corrupt/truncated images, the real writer (cdbmake_*, cdbmss) "
+          "feeding the real reader for a table with duplicate keys across hash-pair blocks (block size scaled 1000 -> 1), qmail-newu main() on 1-2 assign lines, "
           "nughde_get() (exact entry, longest wildcard ending in a break character, catch-all; any cdb error -> QLX_CDB), spawn() child branch (setgroups, setgid, "
           "setuid in that order, uid 0 refused before execv, exact argv), qmail-getpw userext rules over a 2-entry passwd table.",
-  "note": "cdb writer decided only for the empty table (count[h&255] stays a symbolic index; stated in evidence); real NSS and group databases outside; local part "
-          "<= 3 bytes quick, 5 thorough.",
+  "note": "the writer->reader round trip uses concrete keys (symbolic data bytes) because count[h&255] with a symbolic hash does not close; real NSS and "
+          "group databases outside; local part <= 3 bytes quick, 5 thorough.",
  },
  "C17": {
   "design_ref": "DESIGN.md 4 C17",
   "text": "Bounded model checking: addrparse(addrmangle(local@host)) == local@host for every local part of up to 6 bytes (12 thorough) with the real qmail-remote.c and "
           "qmail-smtpd.c in one query; quote2 -> token822_parse -> addrlist -> unquote round trip (local part <= 3 bytes); quote2 output vs an RFC 822 reference reader "
-          "(<= 7 bytes, 12 thorough); 20 syntactic address-list forms through token822_addrlist + rwgeneric give exactly the mailboxes known by construction, and their "
+          "(<= 7 bytes, 12 thorough); 24 syntactic address-list forms (comments inside display names, routes, groups, quoted pairs) through token822_addrlist + rwgeneric give exactly the mailboxes known by construction, and their "
           "unparse output re-read by the reference reader gives the same tokens; doheaderfield never keeps Bcc/Resent-Bcc/Return-Path.",
   "note": "weakest string bound of the suite: token822_parse on symbolic text closes only to 3-4 bytes, so the 'rewritten header parses again' clause is decided "
           "against an RFC 822 reference reader, not by a second real parse; -a/-h/-H/-f option handling and folding at LINELEN not reached.",
@@ -93,8 +97,9 @@ CLAIMS = {
           "substdio_copy.c, getln.c/getln2.c from arbitrary valid buffer states (sizes 1..8) with short writes/reads, EINTR and errors - exactly the contracts the "
           "ideal stream models implement; allocator arithmetic (GEN_ALLOC_readyplus instances, stralloc_catb/copyb/append, quote doit) for ALL 32-bit len/a/n; "
           "put/bput with any 64-bit length; netstring length parsers; dns.c record walkers from symbolic walker states; fmt/scan/date ranges; hfield, headerbody, "
-          "commands, control, constmap, token822_parse, cdb_seek on corrupt files, spawner report routines; plus every string-level harness of C03-C19 runs with the "
-          "same checks.",
+          "commands, control, constmap, token822_parse, cdb_seek on corrupt files, spawner report routines; the guards whose constants lie outside every bound "
+          "(REPORTMAX, qmtpd's 1000-byte recipient buffer with RELAYCLIENT) in parametric/template form; and the program-level surfaces in their owners' harnesses "
+          "with the same checks on (smtpd blast and addrparse, qmail-remote smtpcode, pop3d/popup, .qmail and envelope lines, Received, address-list forms).",
   "note": "NOT a whole-suite claim: inputs longer than each kernel's bound (<= 3..12 bytes), 'thousands of tokens', deep nesting and true 2^31-byte lines are not "
           "executed - only the arithmetic that guards them is proved for all 32-bit values; use-after-free across long sessions and programs not listed are outside.",
  },
@@ -109,8 +114,9 @@ CLAIMS = {
  "C12": {
   "design_ref": "DESIGN.md 4 C12",
   "text": "Bounded model checking of qmail-local.c: mailfile() + gfrom.c round trip through a reference mbox(5) reader for every message of up to 8 bytes "
-          "(11 thorough); any single failing put/flush/fsync/read => ftruncate to the length at lock time and exit 111, lock before seek_end; "
-          "maildir_child() against a file model with crash check at every system call (new/ entry implies complete+synced, exit 0 iff linked); parent "
+          "(11 thorough); any single failing put/flush/fsync/read => ftruncate to the length at lock time and exit 111, lock before seek_end, every input line "
+          "split at an arbitrary point between getln2's two result parts; "
+          "maildir_child() against a file model with crash check at every system call (new/ entry implies complete+synced, exit 0 iff linked, link() failing with EEXIST or otherwise); parent "
           "status mapping for all 65536 wait statuses; From_ line sanitising for senders up to 6 bytes.",
   "note": "concurrent mbox deliveries are covered only through the lock protocol (flock semantics assumed); lock_ex failing for other reasons than the "
           "alarm is outside the fault list; 1024-byte buffer boundaries only through the C20 layer-0 lemmas; time/pid/host concrete.",
@@ -119,7 +125,7 @@ CLAIMS = {
   "design_ref": "DESIGN.md 4 C13",
   "text": "Bounded model checking of the real qmail-local.c main(): .qmail search order and path safety for every extension up to 5 bytes over 3 files with "
           "symbolic names/permissions and symbolic home mode; whole instruction loop against a reference dot-qmail(5) interpreter for every .qmail body of up "
-          "to 9 bytes; mailprogram() for all 65536 wait statuses; bouncexf() for headers up to 8 bytes; mailforward(); Return-Path/Delivered-To newline safety.",
+          "to 9 bytes (the loop check runs before any delivery or forward); mailprogram() for all 65536 wait statuses; bouncexf() for headers up to 8 bytes; mailforward(); Return-Path/Delivered-To newline safety.",
   "note": "what /bin/sh does is outside; quote2 over-approximated in the envelope-lines harness (C17 covers quote.c); NUL bytes in .qmail excluded; "
           "judgements (forwards before exit 99 honoured, '/' in ext only descends) recorded in harness comments.",
  },
